@@ -164,3 +164,62 @@ func HarnessC10Nil(kind int) {
 	}
 	vnCover("C10.nilable-checked")
 }
+
+// two distinct function-local types that print identically
+func hLocalTypeA(id int) (reflect.Type, interface{}) {
+	type T struct{ ID int }
+	return reflect.TypeOf(T{}), T{id}
+}
+
+func hLocalTypeB(id int) (reflect.Type, interface{}) {
+	type T struct{ ID, Other int }
+	return reflect.TypeOf(T{}), T{id, id}
+}
+
+// HarnessC10Seq — a history of Convert calls: each Convert agrees with its own
+// identity call whatever was converted before (no state may leak between calls),
+// including between distinct types whose names coincide.
+func HarnessC10Seq(n int) {
+	hOrderSites(0)
+	x := vnPayload("x")
+	desc := ""
+	for k := 0; k < n; k++ {
+		var tt reflect.Type
+		var v interface{}
+		switch hPick("which", 4, k) {
+		case 0:
+			tt, v = hLocalTypeA(x)
+			desc += "localA "
+		case 1:
+			tt, v = hLocalTypeB(x)
+			desc += "localB "
+		case 2:
+			tt, v = hType(hTP0), hMk(hTP0, x)
+			desc += "P0 "
+		default:
+			tt, v = hType(hTI), hMk(hTP2, x)
+			desc += "I "
+		}
+		vnNote("Convert history: " + desc)
+		idf := reflect.MakeFunc(reflect.FuncOf([]reflect.Type{tt}, []reflect.Type{tt}, false), func(a []reflect.Value) []reflect.Value { return a })
+		f, err := NewFunc(idf.Interface())
+		if err != nil {
+			vnAssert(false, "C10.seq.identity-function-accepted")
+			return
+		}
+		var cv interface{}
+		var cerr error
+		if hGuardPlain(func() { cv, cerr = Convert(tt, Typed(v)) }) {
+			vnAssert(false, "C10.seq.convert-does-not-panic")
+			return
+		}
+		r := f.Call(Typed(v))
+		vnAssert((cerr == nil) == (r.Err() == nil), "C10.seq.convert-succeeds-exactly-when-the-identity-call-does")
+		vnAssert(cerr == nil, "C10.seq.direct-value-converts")
+		if cerr == nil && r.Err() == nil && r.Len() == 1 {
+			vnAssert(reflect.TypeOf(cv) == reflect.TypeOf(r.Out(0)), "C10.seq.same-dynamic-type")
+			vnAssert(reflect.TypeOf(cv).AssignableTo(tt), "C10.seq.assignable-to-target")
+		}
+	}
+	vnCover("C10.seq-checked")
+}
